@@ -128,6 +128,21 @@ var (
 		minttypes.ModuleName,
 		stakingtypes.BondedPoolName,
 		stakingtypes.NotBondedPoolName,
+		// the irismod module accounts only move coins through the module-to-module
+		// and account-to-module paths: a plain transfer to their address before
+		// the module account exists would leave a base account there and make
+		// every later operation of the module panic ("account is not a module
+		// account"); a transfer afterwards strands the coins
+		coinswaptypes.ModuleName,
+		farmtypes.ModuleName,
+		farmtypes.RewardCollector,
+		htlctypes.ModuleName,
+		nfttypes.ModuleName,
+		mttypes.ModuleName,
+		servicetypes.DepositAccName,
+		servicetypes.RequestAccName,
+		servicetypes.FeeCollectorName,
+		tokentypes.ModuleName,
 		// We allow the following module accounts to receive funds:
 		// govtypes.ModuleName
 	}
